@@ -90,6 +90,13 @@ def specs(ctx, n):
             m = rng.choice(pool) + rng.choice([0, 0, 0.25, -0.25])
         else:
             m = rng.choice([-INF, INF, 5.0, -5.0])
+        if use_script and rng.random() < 0.2 and math.isfinite(float(m)) and float(m) != 0.0 and len(script) >= 2:
+            # a score a hair below the threshold (relative 1e-10, an exact double) before anything reaches it: not reached is not reached
+            j_ = rng.randrange(len(script) - 1)
+            script[j_] = (float(m) - abs(float(m)) * 2.0 ** -33, None)
+            for k_ in range(j_):
+                if math.isfinite(script[k_][0]) and script[k_][0] >= float(m):
+                    script[k_] = (float(m) - 1.0, None)
         if rng.random() < 0.3:
             m = np.float64(m)
         calls = [dict(n_iter=n_iter, max_score=m, memory=rng.random() < 0.5)]
